@@ -349,6 +349,38 @@ def run(ctx: Ctx):
             st = [n for n in gc.nodes if any(A.call_name(c) == f"self.{attr}.stop" for c in n.calls())]
             if not st or not gc.dominated(gc.exit, st):
                 ctx.fail(cons, cl.loc(), f"close() does not stop {attr} on every path")
+    # a constructor that fails half-way leaves no started worker behind
+    pinit = pc.methods.get("__init__")
+    cons = "PeerConnection.__init__:started-workers-stopped-on-failure"
+    ctx.inst(cons)
+    if pinit is not None:
+        from ..effects import fault_effects_of
+        gi = cfg_of(pinit, effects=fault_effects_of(model))
+        starts = [n for n in gi.nodes if n.kind == "stmt" and any(
+            isinstance(c.func, ast.Attribute) and c.func.attr == "start"
+            and A.dotted(c.func.value).startswith("self._") for c in n.calls())]
+        starts.sort(key=lambda n: getattr(n.ast, "lineno", 0))
+        if len(starts) < 2:
+            ctx.error(f"PeerConnection.__init__ starts {len(starts)} worker thread(s), expected 2")
+        for i, n in enumerate(starts):
+            if i == 0:
+                continue
+            prev = [A.dotted(c.func.value) for m in starts[:i] for c in m.calls()
+                    if isinstance(c.func, ast.Attribute) and c.func.attr == "start"]
+            stops = [x for x in gi.nodes if any(
+                isinstance(c.func, ast.Attribute) and c.func.attr == "stop"
+                and A.dotted(c.func.value) in prev for c in x.calls())]
+            exc_t = [d for l, d in n.succ if l in ("exc", "raise")]
+            if not n.raises:
+                ctx.error("the fault model attaches no exception to Thread.start in PeerConnection.__init__")
+                continue
+            leak = any(d is gi.raise_exit for d in exc_t) or \
+                gi.raise_exit in gi.reach([d for d in exc_t if d is not gi.raise_exit], normal_blocked=stops)
+            if leak:
+                ctx.fail(cons, gi.loc(n), f"`{n.text(50)}` can fail (RuntimeError: can't start new thread) "
+                         f"after {prev} was started: the exception leaves the constructor, nobody holds "
+                         f"the half-built connection and the started worker runs for ever - one per "
+                         f"connection attempt")
     cp = nc.methods.get("_connect_to_peer")
     cons = "_connect_to_peer:failed-connect-releases"
     ctx.inst(cons)
